@@ -25,6 +25,7 @@ func checkC16(c *Ctx) {
 	c16Ticket(c)
 	c16State(c)
 	c16Gate(c)
+	c16TicketState(c)
 	c15FinishedHash(c) // the resumed GMSSL handshake builds its transcript hash with newFinishedHash
 }
 
@@ -364,5 +365,66 @@ func c16Gate(c *Ctx) {
 		be := newBigEnv(f, allParamNames(f))
 		fs := fieldStores(f, be)
 		c.Check(strings.HasSuffix(fieldForm(fs["masterSecret"]), "sessionState.masterSecret"), "K-C16-restore", fname(f), "the resumed master secret is the ticket's", "", "masterSecret is set to "+fs["masterSecret"], f.Pos())
+	}
+}
+
+// c16TicketState: the state sealed into a ticket is this session's (version, suite, master secret, client chain), and
+// the client chain recorded for tickets is set exactly where the peer certificates are established — on full and on
+// resumed handshakes alike — so a refreshed ticket carries the same identity as the one it replaces.
+func c16TicketState(c *Ctx) {
+	rule := "K-C16-ticketstate"
+	for _, name := range []string{"(*serverHandshakeState).sendSessionTicket", "(*serverHandshakeStateGM).sendSessionTicket"} {
+		f := c.Fn("gmtls", name)
+		if f == nil {
+			c.Missing(rule, "gmtls."+name, "method", "not found")
+			continue
+		}
+		be := newBigEnv(f, allParamNames(f))
+		fs := fieldStores(f, be)
+		get := func(k string) string { return fieldForm(fs[k]) }
+		ok := strings.HasSuffix(get("vers"), "c.vers") && get("cipherSuite") == "hs.suite.id" && get("masterSecret") == "hs.masterSecret" && get("certificates") == "hs.certsFromClient"
+		c.Check(ok, rule, fname(f), "the ticket seals (c.vers, hs.suite.id, hs.masterSecret, hs.certsFromClient)", "", fmt.Sprintf("the ticket state is vers=%s cipherSuite=%s masterSecret=%s certificates=%s", get("vers"), get("cipherSuite"), get("masterSecret"), get("certificates")), f.Pos())
+	}
+	for _, name := range []string{"(*serverHandshakeState).processCertsFromClient", "(*serverHandshakeStateGM).processCertsFromClient"} {
+		f := c.Fn("gmtls", name)
+		if f == nil {
+			c.Missing(rule, "gmtls."+name, "method", "not found")
+			continue
+		}
+		var fromParam, peerSet bool
+		instrsOf(f, func(_ *ssa.BasicBlock, in ssa.Instruction) {
+			st, ok := in.(*ssa.Store)
+			if !ok {
+				return
+			}
+			fa, ok := st.Addr.(*ssa.FieldAddr)
+			if !ok {
+				return
+			}
+			switch fieldName(fa.X.Type(), fa.Field) {
+			case "certsFromClient":
+				if p, isP := st.Val.(*ssa.Parameter); isP && p.Name() == "certificates" {
+					fromParam = true
+				}
+			case "peerCertificates":
+				peerSet = true
+			}
+		})
+		c.Check(fromParam && peerSet, rule, fname(f), "the chain kept for tickets is recorded where the peer certificates are established", "", "processCertsFromClient (which runs on full and on resumed handshakes) does not record its `certificates` argument in hs.certsFromClient: a ticket issued during a resumed handshake would drop the client's chain", f.Pos())
+	}
+	// and the resumed path re-establishes the peer chain from the ticket through that function
+	for _, name := range []string{"(*serverHandshakeState).doResumeHandshake", "(*serverHandshakeStateGM).doResumeHandshake"} {
+		f := c.Fn("gmtls", name)
+		if f == nil {
+			continue
+		}
+		ok := false
+		for _, call := range callsNamedIn(f, "processCertsFromClient") {
+			a := argForms(f, call)
+			if len(a) == 2 && a[1] == "hs.sessionState.certificates" {
+				ok = true
+			}
+		}
+		c.Check(ok, rule, fname(f), "a resumed handshake restores the client chain from the ticket", "", "doResumeHandshake does not call processCertsFromClient(hs.sessionState.certificates)", f.Pos())
 	}
 }
